@@ -433,46 +433,67 @@ def encoder_paths(prog, eff, fname):
     return out
 
 
-def loader_bytemap(prog, eff, fname):
-    """{byte offset j: left shift} of an integer loader, from its return term"""
+def loader_bytemaps(prog, eff, fname):
+    """[{byte offset j: left shift}] - one map per path of an integer loader, from the path's return term.  Understands
+    byte assembly by shifts and adds / ors (also in an unrolled fixed-count loop) and, on a little-endian target, a wide
+    load followed by a byte swap (or not)."""
     import paths as P
+    little = all(m.get("datalayout", "e").startswith("e") for m in prog.facts.get("modules", [])) if prog.facts.get("modules") else True
     X = P.Executor(prog, eff, loop_bound=16)     # a fixed-count assembly loop unrolls into one path
     ps = X.run(fname)
-    if len(ps) != 1:
-        raise AnalysisBroken("loader %s is not straight-line" % fname)
-    t = ps[0].ret
-    m = {}
+    if not ps:
+        raise AnalysisBroken("loader %s has no complete path" % fname)
+    maps = []
+    for pa in ps:
+        widths = {e.res: (P.type_bits(e.ins.type) or 8) // 8 for e in pa.events if e.kind == "load"}
+        calls = {e.res: e for e in pa.events if e.kind == "call"}
 
-    def walk(t, shift):
-        while isinstance(t, tuple) and t[0] == "cast":
-            if t[1] == "sext":
-                inner = t[3]
-                if not (isinstance(inner, tuple) and inner[0] == "cast" and inner[1] == "zext"):
-                    # sign extension of a raw byte would smear bits
-                    if isinstance(inner, tuple) and inner[0] == "ld":
-                        raise AnalysisBroken("loader %s sign-extends a raw byte" % fname)
-            t = t[3]
-        if isinstance(t, tuple) and t[0] == "op" and t[1] in ("add", "or"):
-            walk(t[3], shift)
-            walk(t[4], shift)
-            return
-        if isinstance(t, tuple) and t[0] == "op" and t[1] == "shl" and t[4][0] == "c":
-            walk(t[3], shift + t[4][1])
-            return
-        if t == ("c", 0):
-            return        # the accumulator's initial value
-        if isinstance(t, tuple) and t[0] == "ld" and t[1] != ("arg", 0):
-            b_, o_ = P.const_index_key(P.mkptr(t[1], t[2]) if t[2] else t[1])
-            if b_ == ("arg", 0):
-                t = ("ld", b_, o_, t[3])
-        if isinstance(t, tuple) and t[0] == "ld" and t[1] == ("arg", 0):
-            if t[2] in m:
-                raise AnalysisBroken("loader %s uses byte %d twice" % (fname, t[2]))
-            m[t[2]] = shift
-            return
-        raise AnalysisBroken("loader %s: unrecognised term %r" % (fname, t))
-    walk(t, 0)
-    return m
+        def value(t):
+            """{byte offset: shift} of integer term t, plus the value's width in bytes (None = unknown)"""
+            if t == ("c", 0):
+                return {}, None
+            if isinstance(t, tuple) and t[0] == "cast":
+                m_, w_ = value(t[3])
+                if t[1] == "sext" and not (isinstance(t[3], tuple) and t[3][0] == "cast" and t[3][1] == "zext") and \
+                        isinstance(t[3], tuple) and t[3][0] == "ld":
+                    raise AnalysisBroken("loader %s sign-extends a raw byte" % fname)
+                if t[1] == "trunc":
+                    nb = (P.type_bits(t[2]) or 64) // 8
+                    return {j: sh for j, sh in m_.items() if sh < 8 * nb}, nb
+                return m_, (P.type_bits(t[2]) or 64) // 8 if t[1] in ("zext", "sext") else w_
+            if isinstance(t, tuple) and t[0] == "op" and t[1] in ("add", "or"):
+                a_, wa = value(t[3])
+                b_, wb = value(t[4])
+                if set(a_) & set(b_):
+                    raise AnalysisBroken("loader %s uses byte %d twice" % (fname, sorted(set(a_) & set(b_))[0]))
+                a_.update(b_)
+                return a_, (P.type_bits(t[2]) or 64) // 8
+            if isinstance(t, tuple) and t[0] == "op" and t[1] == "shl" and t[4][0] == "c":
+                m_, w_ = value(t[3])
+                nb = (P.type_bits(t[2]) or 64) // 8
+                return {j: sh + t[4][1] for j, sh in m_.items() if sh + t[4][1] < 8 * nb}, nb
+            if isinstance(t, tuple) and t[0] == "ld":
+                b_, o_ = P.const_index_key(P.mkptr(t[1], t[2]) if t[2] else t[1])
+                if b_ == ("arg", 0):
+                    n_ = widths.get(t, 1)
+                    if n_ > 1 and not little:
+                        return {o_ + j: 8 * (n_ - 1 - j) for j in range(n_)}, n_
+                    return {o_ + j: 8 * j for j in range(n_)}, n_
+            if isinstance(t, tuple) and t[0] == "call" and t[1].startswith("llvm.bswap.") and t in calls:
+                m_, w_ = value(calls[t].args[0])
+                nb = int(t[1].split(".i")[-1]) // 8
+                return {j: 8 * (nb - 1) - sh for j, sh in m_.items() if sh < 8 * nb}, nb
+            raise AnalysisBroken("loader %s: unrecognised term %r" % (fname, t))
+        maps.append(value(pa.ret)[0])
+    return maps
+
+
+def loader_bytemap(prog, eff, fname):
+    """{byte offset j: left shift} of an integer loader whose paths all agree (see loader_bytemaps)"""
+    maps = loader_bytemaps(prog, eff, fname)
+    if any(m != maps[0] for m in maps[1:]):
+        raise AnalysisBroken("loader %s: its paths assemble different byte maps %s" % (fname, maps))
+    return maps[0]
 
 
 # ---------------------------------------------------------------------------
